@@ -163,6 +163,7 @@ def simulate_execution(ex, sp, intent):
         else:
             break
         charges = sum(cost(j + i) for i in range(size))
+        gen_ticks = size * beh.get("gc", 0) if mode == 2 else 0      # input generation, before the start reading
         j += size
         dur_ticks = charges + delta
         dur = conv(dur_ticks, freq)
@@ -181,7 +182,7 @@ def simulate_execution(ex, sp, intent):
         j0s.extend([j - size] * effT)
         if rem is not None:
             rem = max(0, rem - effT)
-        ticks_since_init += delta + charges + delta
+        ticks_since_init += gen_ticks + delta + charges + delta
         if skip:
             elapsed += max(dur, 1000)
         else:
